@@ -74,6 +74,11 @@ func (mls *MetaLeaseSet) Verify() error {
 // Otherwise, the Destination's signing public key is returned.
 func (mls *MetaLeaseSet) signingPublicKeyForVerification() (types.SigningPublicKey, error) {
 	if mls.HasOfflineKeys() && mls.offlineSignature != nil {
+		// The transient key is only authoritative once the offline signature block
+		// itself verifies under the destination's long-term signing key.
+		if err := mls.verifyOfflineSignature(); err != nil {
+			return nil, err
+		}
 		// Use transient signing public key from offline signature
 		transientKeyBytes := mls.offlineSignature.TransientPublicKey()
 		transientSigType := mls.offlineSignature.TransientSigType()
@@ -90,4 +95,26 @@ func (mls *MetaLeaseSet) signingPublicKeyForVerification() (types.SigningPublicK
 		return nil, oops.Errorf("failed to get signing public key from Destination: %w", err)
 	}
 	return spk, nil
+}
+
+// verifyOfflineSignature checks that the offline signature block was signed by
+// the destination's long-term signing key. Without this check any party could attach
+// its own transient key and have structures signed with it accepted.
+func (mls *MetaLeaseSet) verifyOfflineSignature() error {
+	destKey, err := mls.destination.SigningPublicKey()
+	if err != nil {
+		return oops.Errorf("failed to get signing public key from Destination: %w", err)
+	}
+	if destKey == nil {
+		return oops.Errorf("destination has no signing public key")
+	}
+	identityKey := destKey.Bytes()
+	ok, err := mls.offlineSignature.VerifySignature(identityKey)
+	if err != nil {
+		return oops.Errorf("offline signature verification failed: %w", err)
+	}
+	if !ok {
+		return oops.Errorf("offline signature is not valid under the identity's signing key")
+	}
+	return nil
 }
